@@ -1,4 +1,4 @@
-from armulator.armv6.bits_ops import signed_sat_q, substring, to_signed, chain, to_unsigned
+from armulator.armv6.bits_ops import signed_sat_q, substring, to_signed, chain, sign_extend
 from armulator.armv6.opcodes.opcode import Opcode
 
 
@@ -14,6 +14,6 @@ class Ssat16(Opcode):
             n = processor.registers.get(self.n)
             result1, sat1 = signed_sat_q(to_signed(substring(n, 15, 0), 16), self.saturate_to)
             result2, sat2 = signed_sat_q(to_signed(substring(n, 31, 16), 16), self.saturate_to)
-            processor.registers.set(self.d, chain(to_unsigned(result2, 16), to_unsigned(result1, 16), 16))
+            processor.registers.set(self.d, chain(sign_extend(result2, self.saturate_to, 16), sign_extend(result1, self.saturate_to, 16), 16))
             if sat1 or sat2:
                 processor.registers.cpsr.q = 1
